@@ -71,23 +71,22 @@ def _validate_valid_identifiers(nodes: dict[str, HyperNode]) -> None:
     from hypergraph.nodes.graph_node import GraphNode
 
     for node in nodes.values():
-        # Skip GraphNode - it uses graph name validation (allows hyphens)
-        if isinstance(node, GraphNode):
-            continue
-        if not node.name.isidentifier():
-            raise GraphConfigError(
-                f"Invalid node name: '{node.name}'\n\n"
-                f"  -> Names must be valid Python identifiers\n\n"
-                f"How to fix:\n"
-                f"  Use letters, numbers, underscores only"
-            )
-        if keyword.iskeyword(node.name):
-            raise GraphConfigError(
-                f"Invalid node name: '{node.name}'\n\n"
-                f"  -> '{node.name}' is a Python keyword and cannot be used\n\n"
-                f"How to fix:\n"
-                f"  Use a different name (e.g., '{node.name}_node' or '{node.name}_func')"
-            )
+        # GraphNode names use graph name validation (allows hyphens); its outputs are still checked
+        if not isinstance(node, GraphNode):
+            if not node.name.isidentifier():
+                raise GraphConfigError(
+                    f"Invalid node name: '{node.name}'\n\n"
+                    f"  -> Names must be valid Python identifiers\n\n"
+                    f"How to fix:\n"
+                    f"  Use letters, numbers, underscores only"
+                )
+            if keyword.iskeyword(node.name):
+                raise GraphConfigError(
+                    f"Invalid node name: '{node.name}'\n\n"
+                    f"  -> '{node.name}' is a Python keyword and cannot be used\n\n"
+                    f"How to fix:\n"
+                    f"  Use a different name (e.g., '{node.name}_node' or '{node.name}_func')"
+                )
         for output in node.outputs:
             if not output.isidentifier():
                 raise GraphConfigError(
